@@ -702,6 +702,19 @@ func constResults(fn *ssa.Function, idx int, val map[string]int64, depth int) (v
 		if cv, isCv := rv.(*ssa.Convert); isCv {
 			rv = cv.X
 		}
+		// a valued atom, possibly negated (return -a.Cmp(b))
+		if u, isU := rv.(*ssa.UnOp); isU && u.Op == token.SUB {
+			if v, has := val[desc(u.X)]; has {
+				vals[-v] = true
+				continue
+			}
+		}
+		if v, has := val[desc(rv)]; has {
+			if _, isConst := rv.(*ssa.Const); !isConst {
+				vals[v] = true
+				continue
+			}
+		}
 		switch x := rv.(type) {
 		case *ssa.Const:
 			if x.Value != nil && x.Value.Kind() == constant.Int {
@@ -726,12 +739,28 @@ func constResults(fn *ssa.Function, idx int, val map[string]int64, depth int) (v
 				ok = false
 				continue
 			}
+			// the helper's valuation: atoms carried over as they are (atoms already in the helper's vocabulary stay
+			// valid), the arguments' own values, and atoms built over an argument rewritten over the parameter
+			// (len(a.VRFOutput()) in the caller is len(p0) in the helper)
 			hval := map[string]int64{}
+			for k, v := range val {
+				if !paramTokRe.MatchString(k) {
+					hval[k] = v
+				}
+			}
 			for i, a := range call.Call.Args {
+				pi := fmt.Sprintf("p%d", i)
 				if k, isK := a.(*ssa.Const); isK && k.Value != nil && k.Value.Kind() == constant.Int {
-					hval[fmt.Sprintf("p%d", i)] = k.Int64()
-				} else if v, has := val[desc(a)]; has {
-					hval[fmt.Sprintf("p%d", i)] = v
+					hval[pi] = k.Int64()
+					continue
+				}
+				da := desc(a)
+				for k, v := range val {
+					if k == da {
+						hval[pi] = v
+					} else if strings.Contains(k, da) {
+						hval[strings.ReplaceAll(k, da, pi)] = v
+					}
 				}
 			}
 			hv, hok := constResults(h, hidx, hval, depth+1)
